@@ -1,5 +1,7 @@
 (* C14 driver.  One case per line:
-     <P> <ppn_attach> <ppn_sim> <noncontig> <flavour> <dtype> <count> <contributions: P*count hex integers, comma separated or ->
+     <P> <ppn_attach> <ppn_sim> <noncontig> <flavour> <dtype> <count> <contributions: P*count hex integers, comma separated or -> [<dup>]
+   dup = 1: everything is evaluated on the attachment a duplicate of the communicator inherits (comms_dup); `dup=` are the
+   MPI calls of that MPI_Comm_dup, life = live node communicators after attach(+dup) / after freeing the duplicate / after detach
    prints one line:  for every rank  `g=<ir>/<is>/<er>/<es>|none w=<0|1> ag=<ints> pre=<ints> calls=<m>;<ag>;<pre>;<cp>;<f> life=<live after attach>/<after detach>`
    joined by " | ".  Node map of MPI_Comm_split_type as in tools/simmpi: rank / ppn, or rank mod ceil (P/ppn). *)
 let pl_of_string s = if s = "-" || s = "" then [] else List.map z_of_hex (String.split_on_char ',' s)
@@ -9,8 +11,9 @@ let nats l = String.concat "," (List.map (fun n -> string_of_int (int_of_nat n))
 let rec take n l = if n = 0 then [] else match l with [] -> [] | x :: t -> x :: take (n - 1) t
 let rec drop n l = if n = 0 then l else match l with [] -> [] | _ :: t -> drop (n - 1) t
 let () = iter_lines (fun line ->
-  match words line with
-  | [p; pa; ppn; nonc; fl; d; cnt; contribs] ->
+  match (match words line with [a; b; c; d; e; f; g; h] -> [a; b; c; d; e; f; g; h; "0"] | w -> w) with
+  | [p; pa; ppn; nonc; fl; d; cnt; contribs; dup] ->
+    let dup = (dup = "1") in
     let p = int_of_string p and pa = int_of_string pa and ppn = int_of_string ppn and nonc = int_of_string nonc
     and fl = int_of_string fl and d = int_of_string d and cnt = int_of_string cnt in
     let all = pl_of_string contribs in
@@ -19,10 +22,11 @@ let () = iter_lines (fun line ->
       let r = int_of_nat r in
       nat_of_int (if ppn <= 0 then 0 else if nonc <> 0 then r mod ((p + ppn - 1) / ppn) else r / ppn) in
     let np = nat_of_int p in
-    let comms (r : nat) : node_comms option =
+    let comms0 (r : nat) : node_comms option =
       if pa < 0 then None
       else if pa > 0 then Some (attach_explicit np (nat_of_int pa) r)
       else attach_split_type np nd r in
+    let comms = if dup then comms_dup comms0 else comms0 in
     let f = (match fl with 0 -> Basic | 1 -> Prescan | 2 -> Window | _ -> WindowPrescan) in
     let one r =
       let nr = nat_of_int r in
@@ -34,13 +38,14 @@ let () = iter_lines (fun line ->
       (* life cycle of the attached communicators on this rank: alive after attach / after detach *)
       let equal = (comms nr <> None) in
       let s0 = { live = []; next_id = O; attr = None } in
-      let life =
-        if pa < 0 then "0/0" else
-        let s1 = l_attach (pa > 0) equal s0 in
-        let s2 = l_detach s1 in
-        Printf.sprintf "%d/%d" (List.length s1.live) (List.length s2.live) in
-      Printf.sprintf "g=%s w=%d ag=%s pre=%s calls=%s;%s;%s;%s;%s life=%s" g (if w then 1 else 0) (string_of_pl ag) (string_of_pl pre)
-        (nats cm) (nats ca) (nats cp) (nats cc) (nats cf) life in
+      let s1 = if pa < 0 then s0 else l_attach (pa > 0) equal s0 in
+      let (s2, dv) = if dup then l_dup s1 else (s1, None) in
+      let s3 = l_free_dup dv s2 in
+      let s4 = l_detach s3 in
+      let life = Printf.sprintf "%d/%d/%d" (List.length s2.live) (List.length s3.live) (List.length s4.live) in
+      let dupcalls = if dup then nats (calls_dup (s1.attr <> None)) else "-" in
+      Printf.sprintf "g=%s w=%d ag=%s pre=%s calls=%s;%s;%s;%s;%s life=%s dup=%s" g (if w then 1 else 0) (string_of_pl ag) (string_of_pl pre)
+        (nats cm) (nats ca) (nats cp) (nats cc) (nats cf) life dupcalls in
     print_endline (String.concat " | " (List.init p one))
   | [] -> ()
   | _ -> print_endline "BAD_PARAMS")
